@@ -1211,6 +1211,8 @@ class _SubMixin:
                 r = self._sub_rows(base, parts, n)
             if isinstance(r, Q) and r is not base and isinstance(base.shape, Tup):
                 r.shape = self._sub_shape(base.shape, parts)
+            if isinstance(r, Q) and r is not base and base.homog:
+                r.homog = True
             # x[lo:hi] / x[lo:] along axis 0 is a view: constant-row stores into it are written through
             if isinstance(r, Q) and len(parts) == 1 and parts[0][0] == "range" and parts[0][1] >= 0 \
                     and (not base.is_rows or base.axis == 0) and r is not base:
@@ -1384,6 +1386,17 @@ class _SubMixin:
             else:
                 rest.append(p[0])
             pos += 1
+        nrow = None
+        if isinstance(cont.shape, Tup) and cont.axis < len(cont.shape.items):
+            nrow = self.int_of(cont.shape.items[cont.axis])
+        if sel is not None and sel[0] == "const" and sel[1] < 0 and nrow is not None:
+            sel = ("const", sel[1] + nrow)
+        if sel is not None and sel[0] == "range" and nrow is not None:
+            lo, hi = sel[1], sel[2]
+            sel = ("range", lo + nrow if lo < 0 else lo, nrow if hi is None else (hi + nrow if hi < 0 else hi))
+        if nrow is not None and any(k < 0 for k in cont.rows):
+            for k in [k for k in cont.rows if k < 0]:
+                cont.rows[k + nrow] = cont.rows.pop(k)
         strong = mode == "assign" and all(k == "full" for k in rest)
         strict = not any(k in ("var", "key", "vslice") for k in rest)
         if sel is None or sel[0] == "full":
@@ -1512,7 +1525,13 @@ def h_array(eng, node, args, kwargs, env):
 
 
 def h_any(eng, node, args, kwargs, env):
-    return Q(ANY)
+    r = Q(ANY)
+    if args and isinstance(args[0], Tup) and all(isinstance(x, Q) for x in args[0].items):
+        r.shape = args[0]                      # np.empty((a, b, c)): remember the lengths
+    elif args and isinstance(args[0], Q) and isinstance(args[0].shape, Tup) and \
+            pf.src(node.func).endswith("_like"):
+        r.shape = args[0].shape
+    return r
 
 
 def h_one(eng, node, args, kwargs, env):
